@@ -17,9 +17,9 @@ open Vita.IntE Vita.C02
 
 /-- the integer variables an extracted expression may mention -/
 structure Vars where
-  rows : Int := 0     -- 0: size() of the individual (`i_sup`, `i_size`)
-  patch : Int := 0    -- 1: env.mep.patch_length
-  cats : Int := 0     -- 2: categories() (`c_sup`)
+  rows : Int := 0     -- 0: size() of the INDIVIDUAL (`i_sup`, `i_size`) – its own geometry
+  patch : Int := 0    -- 1: env.mep.patch_length of the problem handed to the operator
+  cats : Int := 0     -- 2: categories() of the INDIVIDUAL (`c_sup`)
   i : Int := 0        -- 3: row of the cell being written (row loop variable / iterator locus)
   c : Int := 0        -- 4: its column
   d0 : Int := 0       -- 5: first integer drawn in the block (one point: cut; two points: cut1)
@@ -28,11 +28,13 @@ structure Vars where
   p1 : Int := 0       -- 8: second integer parameter (gene(s, from, sup): sup)
   n : Int := 0        -- 9: team: number of members
   k : Int := 0        -- 10: team: member index
+  codeLen : Int := 0  -- 11: env.mep.code_length of the problem handed to the operator
+  ssCats : Int := 0   -- 12: sset.categories() of the problem handed to the operator
 
 def Vars.env (x : Vars) : Env :=
   { v := fun j => match j with
       | 0 => x.rows | 1 => x.patch | 2 => x.cats | 3 => x.i | 4 => x.c | 5 => x.d0 | 6 => x.d1
-      | 7 => x.p0 | 8 => x.p1 | 9 => x.n | 10 => x.k | _ => 0
+      | 7 => x.p0 | 8 => x.p1 | 9 => x.n | 10 => x.k | 11 => x.codeLen | 12 => x.ssCats | _ => 0
     a := fun _ => 0 }
 
 def isVar : E → Nat → Bool
@@ -131,6 +133,12 @@ def Src.drawOK (ss : SymSet) (ρ : Env) (d : GDraw) : Src → Prop
   | .copy _ _ => True
   | .cond c a b => if evalZ ρ c ≠ 0 then a.drawOK ss ρ d else b.drawOK ss ρ d
 
+/-- the `[from, sup)` handed to `gene(symbol, from, sup)` by the source that is selected -/
+def Src.range (ρ : Env) : Src → Option (Int × Int)
+  | .roulette _ lo sup => some (evalZ ρ lo, evalZ ρ sup)
+  | .cond c a b => if evalZ ρ c ≠ 0 then a.range ρ else b.range ρ
+  | _ => none
+
 /-- the genome after a list of writes (program order: a later write wins) at cell `(i, c)` -/
 def denote (ss : SymSet) (mk : Nat → Nat → Env) (frm : Ind) (d : Nat → Nat → GDraw)
     (coin : Nat → Nat → Bool) (ws : List Write) (base : Nat → Nat → Gene) (i c : Nat) : Gene :=
@@ -152,10 +160,12 @@ def Draw.ok (ρ : Env) (dr : Draw) (v : Int) : Prop :=
 def Draw.callable (ρ : Env) (dr : Draw) : Prop :=
   (match dr.cond with | some c => evalZ ρ c ≠ 0 | none => True) → evalZ ρ dr.lo < evalZ ρ dr.sup
 
-/-- every intermediate value of an unsigned computation is a natural number (no wrap-around) -/
+/-- every intermediate value of an unsigned computation is a natural number (no wrap-around);
+    of a conditional only the branch that is evaluated counts -/
 def nowrap (ρ : Env) : E → Prop
   | .bin op _ a b => nowrap ρ a ∧ nowrap ρ b ∧ 0 ≤ binZ op (evalZ ρ a) (evalZ ρ b)
   | .cmp _ a b => nowrap ρ a ∧ nowrap ρ b
+  | .ite c a b => nowrap ρ c ∧ (if evalZ ρ c ≠ 0 then nowrap ρ a else nowrap ρ b)
   | .lit n => 0 ≤ n
   | .var _ => True
   | _ => False
@@ -166,7 +176,7 @@ def Src.nowrap (ρ : Env) : Src → Prop
   | .roulette cat lo sup => GenSem.nowrap ρ cat ∧ GenSem.nowrap ρ lo ∧ GenSem.nowrap ρ sup
   | .terminal cat => GenSem.nowrap ρ cat
   | .copy r c => GenSem.nowrap ρ r ∧ GenSem.nowrap ρ c
-  | .cond c a b => GenSem.nowrap ρ c ∧ a.nowrap ρ ∧ b.nowrap ρ
+  | .cond c a b => GenSem.nowrap ρ c ∧ (if evalZ ρ c ≠ 0 then a.nowrap ρ else b.nowrap ρ)
 
 def Write.nowrap (ρ : Env) (w : Write) : Prop :=
   (match w.rows with | some r => r.nowrap ρ | none => True) ∧
